@@ -45,7 +45,16 @@ class C15Check(ExplainerCheck):
             else:
                 plan["ops"] = gen_schedule(rng2, cfg)
             strip_private(cfg)
-        if cfg.get("arith") == "float" and cfg["loss"]["family"] in ("sq", "abs", "lin") and run_index % 5 == 2:
+        if cfg.get("arith") == "float" and cfg["loss"]["family"] in ("sq", "abs", "lin") and run_index % 40 == 11:
+            # constructor override: smoothing_alpha = 1 given as a narrow NumPy integer (dynamic mode), integer-valued losses
+            for e in cfg["explainers"]:
+                if e["cls"] in ("pfi", "sage"):
+                    e["dynamic"] = True
+                    e["alpha"] = [1, 1]
+                    e["alpha_type"] = "uint8" if (run_index // 40) % 2 else "int8"
+            cfg["loss"]["family"] = "npuint8" if (run_index // 80) % 2 else "lin"
+            cfg["loss"].pop("scale_exp", None)
+        elif cfg.get("arith") == "float" and cfg["loss"]["family"] in ("sq", "abs", "lin") and run_index % 5 == 2:
             # "accepts any loss with the documented positional signature": also one that reports its zero-one value as
             # an unsigned or boolean NumPy scalar (C15 compares no values, so the discontinuity does not matter here)
             cfg["loss"]["family"] = "npbool" if (run_index // 5) % 2 else "npuint8"
@@ -86,8 +95,17 @@ class C16Check(ExplainerCheck):
             cfg["loss"]["family"] = "lin"
         if arith == "float" and cfg["loss"]["family"] in ("sq", "abs", "lin") and rng.random() < 0.15:
             cfg["loss"]["scale_exp"] = rng.choice([150, 300, 312, 318])      # down into the subnormal range
+        long_run = run_index % (40 if tier == "thorough" else 80) == 13 and arith != "exact"
+        if stratum == 1 and run_index % 80 == 41 and arith in ("float", "npfloat"):
+            # alpha = 1 as a narrow NumPy integer, on a stream long enough for the sample counter to leave that type
+            long_run = True
+            for e in cfg["explainers"]:
+                if e["cls"] in ("pfi", "sage"):
+                    e["alpha_type"] = "int8" if (run_index // 80) % 2 else "uint8"
+            cfg["loss"]["family"] = "sq" if cfg["loss"]["family"] not in ("sq", "abs") else cfg["loss"]["family"]
         ops = gen_schedule(rng, cfg, mix=[("explain", 62), ("learn", 8), ("store", 6), ("observe", 24)],
-                           T=rng.randint(100, 300) if (run_index % (40 if tier == "thorough" else 80) == 13 and arith != "exact") else None)
+                           T=rng.randint(260, 420) if long_run and stratum == 1 and run_index % 80 == 41 else
+                           rng.randint(100, 300) if long_run else None)
         strip_private(cfg)
         return {"property": self.prop, "kind": "explainer", "config": cfg, "ops": ops, "rs0": rng.getrandbits(48)}
 
